@@ -52,8 +52,9 @@ namespace Bridge
 
 /-- Observer of one AXI-Lite port.
     `held*`: a valid that was presented and not taken in the previous cycle (it must be repeated unchanged);
-    `pend*`: requests accepted and not yet answered; `ref`: the flat byte memory the master is entitled to. -/
-structure AxlGhost where
+    `pend*`: requests accepted and not yet answered; `ref`: the reference store the master is entitled to
+    (`ρ` = `Mem` for byte memories, a register map for CSR banks). -/
+structure AxlGhost (ρ : Type) where
   heldAW : Option Nat
   heldW  : Option (Nat × Nat)
   heldAR : Option Nat
@@ -62,39 +63,47 @@ structure AxlGhost where
   pendAW : Option Nat
   pendW  : Option (Nat × Nat)
   pendAR : Option Nat
-  ref    : Mem
+  ref    : ρ
+
+/-- Read / write functions of a reference store: `rd ref addr`, `wr ref addr strb data`. -/
+abbrev RdFn (ρ : Type) := ρ → Nat → Nat
+abbrev WrFn (ρ : Type) := ρ → Nat → Nat → Nat → ρ
+
+/-- Flat byte memory of `nb`-byte words; `amap` maps an AXI-Lite address to the word index. -/
+def byteRd (nb : Nat) (amap : Nat → Nat) : RdFn Mem := fun m a => m.readWord nb (amap a)
+def byteWr (nb : Nat) (amap : Nat → Nat) : WrFn Mem := fun m a st d => m.writeWord nb (amap a) st d
 
 namespace AxlGhost
+variable {ρ : Type}
 
-def init (m : Mem) : AxlGhost :=
+def init (m : ρ) : AxlGhost ρ :=
   { heldAW := none, heldW := none, heldAR := none, heldB := none, heldR := none,
     pendAW := none, pendW := none, pendAR := none, ref := m }
 
 /-- The AXI-Lite master keeps a presented AW / W / AR unchanged until it is accepted (`b.ready`/`r.ready`
     are unconstrained, and so are the relative order of AW and W and new requests while others are pending). -/
-def reqHeld (g : AxlGhost) (m : AxlM) : Prop :=
+def reqHeld (g : AxlGhost ρ) (m : AxlM) : Prop :=
   (∀ a, g.heldAW = some a → m.awvalid = true ∧ m.awaddr = a) ∧
   (∀ d, g.heldW = some d → m.wvalid = true ∧ (m.wdata, m.wstrb) = d) ∧
   (∀ a, g.heldAR = some a → m.arvalid = true ∧ m.araddr = a)
 
 /-- The AXI-Lite slave keeps a presented B / R unchanged until it is taken. -/
-def rspHeld (g : AxlGhost) (s : AxlS) : Prop :=
+def rspHeld (g : AxlGhost ρ) (s : AxlS) : Prop :=
   (∀ r, g.heldB = some r → s.bvalid = true ∧ s.bresp = r) ∧
   (∀ r, g.heldR = some r → s.rvalid = true ∧ (s.rresp, s.rdata) = r)
 
-/-- One response per request, and the data of a flat byte memory of `nb`-byte words addressed through `amap`
-    (AXI-Lite address → word index):
+/-- One response per request, and the data of the reference store:
     a B is only presented for an accepted AW and W, an R only for an accepted AR, with the reference content
     of the addressed word if it is OKAY; no second AW / W / AR is accepted while one is pending. -/
-def memOk (nb : Nat) (amap : Nat → Nat) (g : AxlGhost) (m : AxlM) (s : AxlS) : Prop :=
+def memOk (rd : RdFn ρ) (g : AxlGhost ρ) (m : AxlM) (s : AxlS) : Prop :=
   (s.bvalid = true → g.pendAW.isSome ∧ g.pendW.isSome) ∧
-  (s.rvalid = true → ∃ a, g.pendAR = some a ∧ (s.rresp = respOkay → s.rdata = g.ref.readWord nb (amap a))) ∧
+  (s.rvalid = true → ∃ a, g.pendAR = some a ∧ (s.rresp = respOkay → s.rdata = rd g.ref a)) ∧
   (m.awvalid = true → s.awready = true → g.pendAW = none) ∧
   (m.wvalid = true → s.wready = true → g.pendW = none) ∧
   (m.arvalid = true → s.arready = true → g.pendAR = none)
 
-/-- Update from the signals of one cycle.  The reference memory takes a write at its OKAY response handshake. -/
-def next (nb : Nat) (amap : Nat → Nat) (g : AxlGhost) (m : AxlM) (s : AxlS) : AxlGhost :=
+/-- Update from the signals of one cycle.  The reference store takes a write at its OKAY response handshake. -/
+def next (wr : WrFn ρ) (g : AxlGhost ρ) (m : AxlM) (s : AxlS) : AxlGhost ρ :=
   let bhs := s.bvalid && m.bready
   let rhs := s.rvalid && m.rready
   { heldAW := if m.awvalid && !s.awready then some m.awaddr else none
@@ -107,7 +116,7 @@ def next (nb : Nat) (amap : Nat → Nat) (g : AxlGhost) (m : AxlM) (s : AxlS) : 
     pendAR := if m.arvalid && s.arready then some m.araddr else if rhs then none else g.pendAR
     ref    := if bhs && s.bresp == respOkay then
                 (match g.pendAW, g.pendW with
-                 | some a, some (d, st) => g.ref.writeWord nb (amap a) st d
+                 | some a, some (d, st) => wr g.ref a st d
                  | _, _ => g.ref)
               else g.ref }
 
